@@ -32,7 +32,7 @@ class C06(Monitor):
     def start(self, ctx):
         self.journeys: Dict[str, Dict[str, Any]] = {}  # vid -> {"instance", "route0", "pieces"}
         self.arrived: Dict[str, Any] = {}  # vid -> instance id that had an empty route after the previous step
-        self.edge = h3.edge_length(15, "km")
+        self.edge = h3.edge_length(int(ctx.s.sim_h3_location_resolution), "km")
 
     def on_step(self, ctx):
         s, prev = ctx.s, ctx.prev
@@ -153,7 +153,7 @@ class C06(Monitor):
             ctx.violate("C06", "stored-route-differs-from-remaining", f"{vid}: stored route differs from the remaining part of the traversal", vehicle=vid)
         # --- progress
         gt0 = net.link_from_link_id(rn[0].link_id) if rn else None
-        if gt0 is not None and gt0.speed_kmph * dt / 3.6 >= 3.0:
+        if gt0 is not None and gt0.speed_kmph * dt / 3.6 >= 6000.0 * self.edge:  # at least ~6 cell edges per step (3 m at resolution 15)
             ctx.count("c06_progress_checks")
             progressed = len(mn) < len(rn) or (mn and gc_km(mn[0].start, mn[0].end) < gc_km(rn[0].start, rn[0].end) - 1e-12)
             if not progressed:
